@@ -56,8 +56,13 @@ Proof.
   destruct fr.
   - destruct (Nat.eqb (length (c_frames c1)) (length (c_frames c))) eqn:El.
     + apply Nat.eqb_eq in El. injection H as <-. eapply PCompletion; eassumption.
-    + apply Nat.eqb_neq in El. apply Hinstr; [right; assumption|exact H].
+    + apply Nat.eqb_neq in El. apply Hinstr; [right; split; [reflexivity|assumption]|exact H].
   - apply Hinstr; [left; reflexivity|exact H].
+  - change ((let '(expired, r2) := deadline_test r1 in
+             if expired then Ok (Return RRuntimeError (expired_machine r2 c1))
+             else Ok (Executed (upd_cur r2 c1))) = Ok it) in H.
+    destruct (deadline_test r1) as [expired r2] eqn:Ed.
+    destruct expired; injection H as <-; [eapply PRestartExpired|eapply PRestarted]; eassumption.
 Qed.
 
 Lemma match_nonempty : forall {A B} (l:list A) (x y:B), l <> [] -> match l with [] => x | _ :: _ => y end = y.
@@ -71,7 +76,9 @@ Proof.
                 |c r1 c1 [Ex [Ec [Es [Ef St]]]] En Ee El
                 |c fr r1 c1 i r2 [Ex [Ec [Es [Ef St]]]] En Ee Hf Ei Ed
                 |c fr r1 c1 i r2 r3 c5 [Ex [Ec [Es [Ef St]]]] En Ee Hf Ei Ed Ex2 Ee4
-                |c fr r1 c1 i r2 r3 c5 b r5 [Ex [Ec [Es [Ef St]]]] En Ee Hf Ei Ed Ex2 Ee4 Eo];
+                |c fr r1 c1 i r2 r3 c5 b r5 [Ex [Ec [Es [Ef St]]]] En Ee Hf Ei Ed Ex2 Ee4 Eo
+                |c r1 c1 r2 [Ex [Ec [Es [Ef St]]]] En Ee Ed
+                |c r1 c1 r2 [Ex [Ec [Es [Ef St]]]] En Ee Ed];
     rewrite Ex; try reflexivity; rewrite Ec, Es; try reflexivity.
   - rewrite Ef. reflexivity.
   - rewrite (match_nonempty _ _ _ Ef). destruct (r_state r); try reflexivity. congruence.
@@ -81,8 +88,8 @@ Proof.
     cbv zeta. rewrite El, Nat.eqb_refl. reflexivity.
   - rewrite (match_nonempty _ _ _ Ef). rewrite St, En. cbn [bindr]. rewrite Ee.
     rewrite deadline_fold, Ei, Ed.
-    destruct Hf as [->|Hl]; [reflexivity|].
-    apply Nat.eqb_neq in Hl. rewrite Hl. destruct fr; reflexivity.
+    destruct Hf as [->|[-> Hl]]; [reflexivity|].
+    apply Nat.eqb_neq in Hl. rewrite Hl. reflexivity.
   - rewrite (match_nonempty _ _ _ Ef). rewrite St, En. cbn [bindr]. rewrite Ee.
     rewrite deadline_fold, Ei, Ed.
     assert (G: bindr (exec_instr i r2 c1) (fun '(r3, c5) =>
@@ -92,8 +99,8 @@ Proof.
                       if recovered then Ok (Executed r5) else Ok (Return RRuntimeError r5)))
                = Ok (Executed (set_msgs (upd_cur r3 c5) []))).
     { rewrite Ex2. cbn [bindr]. cbv zeta. rewrite Ee4. reflexivity. }
-    destruct Hf as [->|Hl]; [exact G|].
-    apply Nat.eqb_neq in Hl. rewrite Hl. destruct fr; exact G.
+    destruct Hf as [->|[-> Hl]]; [exact G|].
+    apply Nat.eqb_neq in Hl. rewrite Hl. exact G.
   - rewrite (match_nonempty _ _ _ Ef). rewrite St, En. cbn [bindr]. rewrite Ee.
     rewrite deadline_fold, Ei, Ed.
     assert (G: bindr (exec_instr i r2 c1) (fun '(r3, c5) =>
@@ -103,8 +110,12 @@ Proof.
                       if recovered then Ok (Executed r5) else Ok (Return RRuntimeError r5)))
                = Ok (if b then Executed r5 else Return RRuntimeError r5)).
     { rewrite Ex2. cbn [bindr]. cbv zeta. rewrite Ee4. cbn [negb]. rewrite Eo. cbn [bindr]. destruct b; reflexivity. }
-    destruct Hf as [->|Hl]; [exact G|].
-    apply Nat.eqb_neq in Hl. rewrite Hl. destruct fr; exact G.
+    destruct Hf as [->|[-> Hl]]; [exact G|].
+    apply Nat.eqb_neq in Hl. rewrite Hl. exact G.
+  - rewrite (match_nonempty _ _ _ Ef). rewrite St, En. cbn [bindr]. rewrite Ee.
+    rewrite deadline_fold, Ed. reflexivity.
+  - rewrite (match_nonempty _ _ _ Ef). rewrite St, En. cbn [bindr]. rewrite Ee.
+    rewrite deadline_fold, Ed. reflexivity.
 Qed.
 
 Theorem do_iter_iff_pass : forall r it, do_iter r = Ok it <-> pass r it.
@@ -521,6 +532,14 @@ Proof.
 Qed.
 
 (* ================================================================== 7. the flag never survives a pass, a slice, a run *)
+(* the deadline test reads the clock and nothing else: it logs nothing and leaves the flag alone *)
+Lemma deadline_keeps : forall r1 e r2, deadline_test r1 = (e, r2) -> r_out r2 = r_out r1 /\ r_err r2 = r_err r1.
+Proof.
+  intros r1 e r2 H. unfold deadline_test in H. destruct (Z.eqb (r_max_runtime r1) 0).
+  - injection H as _ <-. auto.
+  - unfold now in H. injection H as _ <-. auto.
+Qed.
+
 Theorem do_iter_clears_flag : forall r it, r_err r = false -> do_iter r = Ok it -> r_err (rt_of it) = false.
 Proof.
   intros r it He H. apply do_iter_pass in H.
@@ -529,11 +548,15 @@ Proof.
                 |c r1 c1 Hr En Ee El
                 |c fr r1 c1 i r2 Hr En Ee Hf Ei Ed
                 |c fr r1 c1 i r2 r3 c5 Hr En Ee Hf Ei Ed Ex2 Ee4
-                |c fr r1 c1 i r2 r3 c5 b r5 Hr En Ee Hf Ei Ed Ex2 Ee4 Eo]; try assumption.
+                |c fr r1 c1 i r2 r3 c5 b r5 Hr En Ee Hf Ei Ed Ex2 Ee4 Eo
+                |c r1 c1 r2 Hr En Ee Ed
+                |c r1 c1 r2 Hr En Ee Ed]; try assumption.
   - apply on_error_clears_flag in Eo. destruct b; exact Eo.
   - cbn [rt_of]. rewrite upd_cur_err. assumption.
   - reflexivity.
   - apply on_error_clears_flag in Eo. destruct b; exact Eo.
+  - reflexivity.
+  - cbn [rt_of]. rewrite upd_cur_err. destruct (deadline_keeps _ _ _ Ed) as [_ ->]. assumption.
 Qed.
 
 Theorem execute_do_clears_flag : forall fuel r ea x r', r_err r = false ->
@@ -597,7 +620,9 @@ Proof.
                 |c r1 c1 Hr En Ee El
                 |c fr r1 c1 i r2 Hr En Ee Hf Ei Ed
                 |c fr r1 c1 i r2 r3 c5 Hr En Ee Hf Ei Ed Ex2 Ee4
-                |c fr r1 c1 i r2 r3 c5 b r5 Hr En Ee Hf Ei Ed Ex2 Ee4 Eo];
+                |c fr r1 c1 i r2 r3 c5 b r5 Hr En Ee Hf Ei Ed Ex2 Ee4 Eo
+                |c r1 c1 r2 Hr En Ee Ed
+                |c r1 c1 r2 Hr En Ee Ed];
     try (exists []; split; [reflexivity|]; split; [intros rF H; discriminate H|intros H; discriminate H]).
   - (* behaviour error *)
     apply frame_next_ext in En. destruct (ext_flag _ _ En He) as [s1 [Ho1 Hf1]]. rewrite Ee in Hf1.
@@ -635,6 +660,17 @@ Proof.
     + destruct (on_error_unhandled _ _ Eo) as [_ [Hout _]]. rewrite upd_cur_out in Hout.
       exists (ev_of d_Stacktrace :: s3). cbn [rt_of]. split; [rewrite Hout, Ho3; reflexivity|].
       split; [|intros _; left; eauto]. intros rF _. exists s3. right. auto.
+  - (* restarted scope without instructions, time limit *)
+    apply frame_next_ext in En. apply deadline_ext in Ed. pose proof (ext_trans _ _ _ En Ed) as E2.
+    destruct (ext_flag _ _ E2 He) as [s2 [Ho2 _]].
+    exists (ev_of d_MaximumRuntimeReached :: s2). cbn [rt_of]. split.
+    { unfold expired_machine. cbn. rewrite upd_cur_out, Ho2. reflexivity. }
+    split; [|intros _; left; eauto]. intros rF _. exists s2. left. reflexivity.
+  - (* restarted scope without instructions: nothing error-level was logged *)
+    apply frame_next_ext in En. destruct (ext_flag _ _ En He) as [s1 [Ho1 Hf1]]. rewrite Ee in Hf1.
+    destruct (deadline_keeps _ _ _ Ed) as [Ho2 _].
+    exists s1. cbn [rt_of]. rewrite upd_cur_out, Ho2. split; [assumption|]. split; [intros rF H; discriminate H|].
+    intros H. congruence.
 Qed.
 
 Lemma tight_explained : forall s s', s = ev_of d_MaximumRuntimeReached :: s' \/ (s = ev_of d_Stacktrace :: s' /\ has_err s' = true) ->
@@ -672,12 +708,19 @@ Qed.
 (* ================================================================== 9. the scheduler loop of execute(start), execute, histories *)
 Definition sp_ctx (c00:context) : context :=
   if c_terminate c00 then set_suspended (set_values (set_frames c00 []) []) false (c_wakeup c00) else c00.
+(* the machine the time-limit abort of the scheduler loop leaves behind while the script sleeps *)
+Definition idle_expired_machine (r2:rt) : rt :=
+  set_msgs (set_errflag (set_exit_req (logmsg r2 d_MaximumRuntimeReached) true) false) [].
 Definition sp_step (r0:rt) (c:context) : res (rresult * rt) :=
   if c_suspended c then
     let (t, r1) := now r0 in
     if Z.leb (c_wakeup c) t
     then execute_do exec_fuel (upd_cur r1 (set_suspended c false (c_wakeup c))) (r_slice (upd_cur r1 (set_suspended c false (c_wakeup c))))
-    else Ok (ROk, r1)
+    else
+      (* the script sleeps: nothing executes, the time limit applies nevertheless *)
+      let '(expired, r2) := deadline_test r1 in
+      if expired then Ok (RRuntimeError, idle_expired_machine r2)
+      else Ok (ROk, r2)
   else execute_do exec_fuel r0 (r_slice r0).
 Definition sp_dropped (r2:rt) : rt :=
   match cur r2 with
@@ -714,7 +757,12 @@ Proof.
     destruct (Z.leb (c_wakeup c) t).
     + apply execute_do_events in H; [|rewrite upd_cur_err; exact He].
       rewrite upd_cur_out in H. exact H.
-    + injection H as <- <-. exists []. repeat split; [exact He|discriminate].
+    + match type of H with context [deadline_test ?a] => destruct (deadline_test a) as [expired r3] eqn:Ed end.
+      destruct (deadline_keeps _ _ _ Ed) as [Ho2 He2]. cbn in Ho2, He2.
+      destruct expired; injection H as <- <-.
+      * exists [ev_of d_MaximumRuntimeReached]. split; [unfold idle_expired_machine; cbn; rewrite Ho2; reflexivity|].
+        split; [reflexivity|]. intros _. exists [], []. left. reflexivity.
+      * exists []. repeat split; [exact Ho2|congruence|discriminate].
   - apply execute_do_events in H; assumption.
 Qed.
 
